@@ -153,7 +153,8 @@ impl ActTask for Act {
                     return Ok(true);
                 }
 
-                if t.state().is_success() {
+                // every other way to end counts (submitted, removed, ..), as it does for the acts of a step
+                if t.state().is_completed() {
                     count += 1;
                 }
             }
